@@ -36,13 +36,13 @@ META = {
     "level_note": "Target unitary = the operator's matrix (templates: harness simulation of the legacy decomposition on the documented "
                   "domain). default.qubit tree-traversal as a second opinion for computational-basis rules is not used (C21 documents "
                   "crashes of that path). Rules with postselection are interpreted on the postselected branch only.",
-    "shards": {"quick": 2, "thorough": 8},
+    "shards": {"quick": 2, "thorough": 4},
     "budget_s": {"quick": 50, "thorough": 150},
     "min_evals": {"quick": 60, "thorough": 600},
-    "min_nontrivial": {"quick": 20, "thorough": 60},
+    "min_nontrivial": {"quick": 20, "thorough": 40},
     "deciding": ["branch.unitary", "branch.aux"],
     "rule": "case = (rule, instance, outcome string) with branch probability > 0; distinct = distinct (rule, operator class, symbolic wrapper, "
-            "resource params, outcome string); non-trivial = the branch contains at least one measurement",
+            "resource params, control values, outcome string); non-trivial = the branch contains at least one measurement",
     "assumptions": ["outcome 0 <-> eigenvalue +1 (pauli_measure docstring)", "Conditional.meas_val.concretize evaluates the classical predicate"],
 }
 
@@ -136,6 +136,11 @@ def run(ctx):  # noqa: C901
             rp = repr(sorted((k, repr(v)[:80]) for k, v in P.params.items()))
         except Exception:  # noqa: BLE001
             rp = ""
+        try:
+            cvals = [int(bool(v)) for v in (getattr(op, "control_values", None) if getattr(op, "control_values", None) is not None
+                                            else getattr(getattr(op, "base", None), "control_values", []))]
+        except Exception:  # noqa: BLE001
+            cvals = []
         for b in branches:
             T = b.T.reshape(Dt, Dw, Dti, Dm)
             A = np.einsum("ac,awcm->wm", Uin.conj(), T) / Dti
@@ -143,7 +148,7 @@ def run(ctx):  # noqa: C901
             pb_direct = float(np.linalg.norm(T) ** 2 / (Dti * Dm))
             ptot += pb_direct
             ctx.ev("branch.unitary")
-            ctx.case(fingerprint(rule.name, type(op).__name__, inst.tag, rp, b.record), nontrivial=nmeas > 0,
+            ctx.case(fingerprint(rule.name, type(op).__name__, inst.tag, rp, b.record, cvals), nontrivial=nmeas > 0,
                      cls=f"{key}::{rule.name}", sample={"rule": rule.name, "op": info["op"][:120], "branch": b.record, "p": pb_direct})
             E = np.einsum("ac,wm->awcm", Uin, A)
             res = float(np.max(np.abs(T - E))) / max(np.sqrt(pb_direct), 1e-12)
